@@ -873,6 +873,7 @@ def run(P, C):
     ks1(P, C)
     ks2(P, C)
     ks4(P, C)
+    ks5(P, C)
     km1(P, C)
     km2(P, C)
     km4(P, C)
@@ -970,3 +971,29 @@ def ks4(P, C):
                      f.loc(gn) if gn is not None else f.where(),
                      "a throwing guard in a loop over the %s refuses characters %s" % (s_, what) if gn is not None else
                      "no throwing guard refuses a %s character %s: cfitsio stores a blank in its place and the entry comes back altered" % (s_, what))
+
+
+def ks5(P, C):
+    """KS-5: the reserved-name test applies to every key."""
+    C.rule("KS-5", "write_key refuses a reserved name whatever the key's length: the throwing guard on reservedFitsKeyword(key) is not nested in any "
+           "branch (in particular not in the short-key branch) and precedes every effect. The reader drops every card the same predicate "
+           "matches — by prefix for the indexed families — so a long key such as `ORDERING SCHEME`, accepted and written as a HIERARCH card, is "
+           "silently lost when the file is read back", floor=3)
+    for f in [g for g in P.fns("write_key") if g.cls == ts.CLS and g.unit == "driver"]:
+        name = ts.fshort(f)
+        key = f.params[0]["id"]
+        gs = [g for g in vg.guards_of(f) if any(cal and cal["name"] == "reservedFitsKeyword" and
+                                                any(f.k(y) == "DeclRefExpr" and f.nodes[y]["decl"].get("id") == key for a in f.args(x) for y in f.walk(a))
+                                                for x, cal in f.calls(f.nodes[g["node"]]["cond"]))]
+        ok, det, where = False, "no throwing guard on reservedFitsKeyword(key)", f.where()
+        if gs:
+            g = gs[0]
+            where = f.loc(g["node"])
+            nest = [a for a in f.ancestors(g["node"]) if f.k(a) in ("IfStmt", "SwitchStmt", "ForStmt", "WhileStmt", "DoStmt", "ConditionalOperator", "CXXTryStmt")]
+            conn, leaves = core.cond_leaves(f, f.nodes[g["node"]]["cond"])
+            alone = conn in ("leaf", "||")
+            ok = not nest and alone
+            det = "if(reservedFitsKeyword(key)) throw, at the top level of the function" if ok else \
+                ("the reserved-name test is nested in `%s`: keys outside that branch are never tested" % f.render(f.nodes[nest[0]].get("cond", nest[0]))[:80] if nest else
+                 "the reserved-name test is combined with other conditions (%s): it does not reject every reserved name" % f.render(f.nodes[g["node"]]["cond"])[:80])
+        C.ob("KS-5", name, "reserved-test-unconditional", ok, where, det)
